@@ -243,9 +243,19 @@ class Run(object):
                             break
 
     def run(self):
-        ths = [threading.Thread(target=self._worker, args=(i,), daemon=True) for i in range(self.n)]
-        for t in ths:
-            t.start()
+        # the callers are threads the `threading` module does not know about (started through _thread, like threads created
+        # by an extension module or an embedding host): real threads all the same, but threading.active_count() /
+        # enumerate() do not see them - whatever the library decides from those, the answers must not change
+        import _thread
+        self._exited = [threading.Event() for _ in range(self.n)]
+
+        def body(i):
+            try:
+                self._worker(i)
+            finally:
+                self._exited[i].set()
+        for i in range(self.n):
+            _thread.start_new_thread(body, (i,))
         self.sems[self.first].release()
         last = -1
         waited = 0.0
@@ -262,8 +272,8 @@ class Run(object):
             if waited > 40 or (freed_at is not None and waited - freed_at > 15):
                 self.hung = True          # some thread is blocked for good (a lock the proxies do not cover)
                 break
-        for t in ths:
-            t.join(timeout=0.2 if self.hung else 5)
+        for e in self._exited:
+            e.wait(timeout=0.2 if self.hung else 5)
         return self.results
 
 
